@@ -47,6 +47,7 @@ type vfC03Run struct {
 	perKey  map[string]int
 	entries map[string]func(b []byte)
 
+	stopped     bool // a panic was recorded in this part
 	replayEntry string
 	replayIn    []byte
 	replaySeq   string
@@ -54,7 +55,7 @@ type vfC03Run struct {
 
 const (
 	vfC03LogBatch   = 2000 // stateless entries: the input log is cut back after this many lines
-	vfC03MaxPerKey  = 4    // written-out violations per key; further ones are only counted
+	vfC03MaxPerKey  = 4    // written-out violations per key (service-stops); a part stops at its first panic
 	vfC03MaxCaseHex = 30000
 )
 
@@ -169,13 +170,14 @@ func (r *vfC03Run) Do(entry string, in []byte) bool {
 	return r.do(entry, in, f)
 }
 
-// Dead reports that an entry has already panicked vfC03MaxPerKey times: the verdict for it is
-// settled, further inputs are only counted (keeps a failing run short, e.g. when a missing limit
-// turns later inputs into gigabyte allocations).
+// Dead reports that this part has recorded a panic. The verdict is settled then, and the objects the
+// part works on may be left inconsistent by the unwound call (e.g. a mutex that was never
+// released), so nothing more is fed: further inputs are only counted. This also keeps a failing
+// run short (a missing limit may turn later inputs into gigabyte allocations).
 func (r *vfC03Run) Dead(entry string) bool {
 	r.mu.Lock()
 	defer r.mu.Unlock()
-	return r.perKey[entry+"-panic"] >= vfC03MaxPerKey
+	return r.stopped
 }
 
 func (r *vfC03Run) do(entry string, in []byte, f func(b []byte)) (panicked bool) {
@@ -225,6 +227,7 @@ func (r *vfC03Run) Panicked(entry, caseID string, in []byte, extra map[string]an
 	r.mu.Lock()
 	r.perKey[key]++
 	n := r.perKey[key]
+	r.stopped = true
 	r.mu.Unlock()
 	if n > vfC03MaxPerKey {
 		return
@@ -256,6 +259,9 @@ func (r *vfC03Run) ServiceStopped(entry, caseID string, witness any, format stri
 
 // Canary runs a well-formed round through an entry under the same guard; ok=false -> violation.
 func (r *vfC03Run) Canary(entry, caseID string, witness any, f func() error) {
+	if r.Dead(entry) {
+		return
+	}
 	r.k.Count("ev_canary", 1)
 	defer func() {
 		if p := recover(); p != nil {
